@@ -244,7 +244,9 @@ def is_transfer_wrapper(prog: Program, fi: FuncInfo, cat: str) -> bool:
     parent = prog.func("redress.policy.runner.timeline:_resolve_timeline")
     # record precedes the delegated call
     body_calls = [n for n in ast.walk(fi.node) if isinstance(n, ast.Call)]
-    rec = [c for c in body_calls if isinstance(c.func, ast.Attribute) and c.func.attr == "record"]
+    # the record step: the collector's `record(...)`, or - with the collector written out in the hook - the
+    # `timeline.add(TimelineEvent(...))` itself
+    rec = [c for c in body_calls if isinstance(c.func, ast.Attribute) and (c.func.attr == "record" or (c.func.attr == "add" and len(c.args) == 1 and isinstance(c.args[0], ast.Call) and ast.unparse(c.args[0].func).split(".")[-1] == "TimelineEvent"))]
     dele = [c for c in body_calls if hook_category(prog, fi, c) == "on_metric"]
     if len(rec) != 1 or len(dele) != 1 or rec[0].lineno > dele[0].lineno:
         return False
@@ -254,10 +256,19 @@ def is_transfer_wrapper(prog: Program, fi: FuncInfo, cat: str) -> bool:
         for n in prog._own_nodes(g.node):
             if isinstance(n, ast.Assign) and isinstance(n.value, ast.Call) and any(t.func is not None and t.func.qual == parent.qual for t in prog.resolve_call(n.value, g)):
                 tgt = n.targets[0]
-                if not (isinstance(tgt, ast.Tuple) and len(tgt.elts) == 2 and isinstance(tgt.elts[1], ast.Name)):
+                uses: list[ast.AST]
+                if isinstance(tgt, ast.Tuple) and len(tgt.elts) == 2 and isinstance(tgt.elts[1], ast.Name):
+                    name = tgt.elts[1].id
+                    uses = [u for u in prog._own_nodes(g.node) if isinstance(u, ast.Name) and u.id == name and isinstance(u.ctx, ast.Load)]
+                elif isinstance(tgt, ast.Name):
+                    # the pair kept whole and taken apart by index: `r = _resolve_timeline(...)`; `r[0]`, `r[1]`
+                    loads = [u for u in prog._own_nodes(g.node) if isinstance(u, ast.Name) and u.id == tgt.id and isinstance(u.ctx, ast.Load)]
+                    subs = {id(sb.value): sb for sb in prog._own_nodes(g.node) if isinstance(sb, ast.Subscript) and isinstance(sb.slice, ast.Constant) and isinstance(sb.slice.value, int)}
+                    if any(id(u) not in subs for u in loads):
+                        return False
+                    uses = [subs[id(u)] for u in loads if subs[id(u)].slice.value == 1]
+                else:
                     return False
-                name = tgt.elts[1].id
-                uses = [u for u in prog._own_nodes(g.node) if isinstance(u, ast.Name) and u.id == name and isinstance(u.ctx, ast.Load)]
                 for u in uses:
                     good = False
                     for c in prog._own_nodes(g.node):
